@@ -1118,7 +1118,7 @@ def check(name, clause, detail=None):
             status = 'unknown'     # a cvc5 'sat' without model extraction stays undecided
     r.solver.set('timeout', r.fork_timeout_ms)
     r.solver_s += time.time() - t0
-    rec = dict(name=name, status=status, backend=backend, detail=detail)
+    rec = dict(name=name, status=status, backend=backend, detail=detail, t=round(time.time() - t0, 3))
     if status == 'failed':
         rec['model'] = model
         rec['robust'] = robust
@@ -1148,8 +1148,9 @@ class ExploreResult:
         self.backends = {}
 
     def add_check(self, c):
-        d = self.checks.setdefault(c['name'], dict(proved=0, failed=0, unknown=0, witnesses=[]))
+        d = self.checks.setdefault(c['name'], dict(proved=0, failed=0, unknown=0, witnesses=[], t=0.0))
         d[c['status']] += 1
+        d['t'] = round(d.get('t', 0.0) + c.get('t', 0.0), 3)
         self.backends[c.get('backend', 'z3')] = self.backends.get(c.get('backend', 'z3'), 0) + 1
         if c['status'] == 'failed' and len(d['witnesses']) < 3:
             d['witnesses'].append(dict(model=c.get('model'), robust=c.get('robust'), detail=c.get('detail'),
